@@ -190,6 +190,20 @@ def main():
                 out.write('CKIN %d %s %s\n' % (i, nm, data.hex()))
             for pos, size, le in vtrace.PATCHES:
                 out.write('PATCH %d pos=%d size=%d le=%s\n' % (i, pos, size, le))
+        elif parts[0] == 'U':
+            import checksum as _ck
+            i = int(parts[1])
+            out.write('BEGIN U %d\n' % i); out.flush()
+            for _tag, _on in (('ENCU', False), ('ENCG', True)):
+                _ck.ENABLED = _on
+                try:
+                    obj = BUILDERS[i]()
+                    buf = ByteBuf()
+                    obj.encode(buf)
+                    out.write('%s %d %s\n' % (_tag, i, bytes(buf.data).hex()))
+                except Exception as e:
+                    out.write('%s %d ERR %s\n' % (_tag, i, _err(e)))
+            _ck.ENABLED = True
         elif parts[0] == 'D':
             cid = parts[1]
             data = b'' if parts[2] == '-' else bytes.fromhex(parts[2])
